@@ -53,8 +53,11 @@ func mergeIter[T any](it0, it1 ociregistry.Seq[T], cmp func(T, T) int) ociregist
 	xs0, err0 := ociregistry.All(it0)
 	xs1, err1 := ociregistry.All(it1)
 	if err0 != nil || err1 != nil {
-		notFound0 := errors.Is(err0, ociregistry.ErrNameUnknown)
-		notFound1 := errors.Is(err1, ociregistry.ErrNameUnknown)
+		// Note: a registry that doesn't know the name has nothing to
+		// contribute; when it has already produced some items, the error
+		// means that its listing is incomplete, and so is the merged one.
+		notFound0 := len(xs0) == 0 && errors.Is(err0, ociregistry.ErrNameUnknown)
+		notFound1 := len(xs1) == 0 && errors.Is(err1, ociregistry.ErrNameUnknown)
 		if notFound0 && notFound1 {
 			return ociregistry.ErrorSeq[T](err0)
 		}
